@@ -15,6 +15,8 @@ NEUTRALS = [{'name': 'flip threshold comparison', 'file': 'partitura/performance
 
 # changes made by sub-agents that were given only the property text (see /verif/seeded/<id>/): each must stay reported
 SEEDED = [
+    {'name': 'seeded change C14-r5b', 'seed': 'C14-r5b', 'expect': '|F10-quot|'},
+    {'name': 'seeded change C14-r5a', 'seed': 'C14-r5a', 'expect': '|CLOCK-fwd|'},
     {'name': 'seeded change C14-r4b', 'seed': 'C14-r4b', 'expect': '|F10-ticks|'},
     {'name': 'seeded change C14-r4a', 'seed': 'C14-r4a', 'expect': '|ROUND-all|'},
     {'name': 'seeded change C14-r3', 'seed': 'C14-r3', 'expect': '|VALID-dom|'},
